@@ -140,6 +140,16 @@ pub fn check_with(tc: &TreeCase, kf: &Switches, st: &mut Stats) -> Result<(), St
     if rq != rf.quirks {
         return Err(format!("quirks mode: html5ever {rq}, WHATWG algorithm {}", rf.quirks));
     }
+    // how many verdicts depended on a listed known finding (counted as excluded)
+    if kf.has("kf_doctype_skips_modes") {
+        let low = tc.input.to_ascii_lowercase();
+        if low.contains("<!doctype") && (low.contains("<table") || tc.cfg.ctx.is_some()) {
+            let strict = run_reference(&cfg, &tc.input, &Switches::default());
+            if strict.dump != real {
+                st.exclude("KF-C02-doctype-in-table-text");
+            }
+        }
+    }
     let mut nt = false;
     for (k, v) in &rf.counters {
         if *k == "reset insertion mode" && tc.cfg.ctx.is_none() && *v == 0 {
